@@ -154,17 +154,18 @@ def mur_diff(workdir, lmax, reps, seed, repo=REPO):
             "calls": cases, "cases": cases, "wall_s": time.time() - t0, "cmd": "mur_diff %d %d %d" % (lmax, reps, seed)}
 
 
-def gcm_guard(workdir, lmax, smax, seed, repo=REPO):
-    """bounded guard-page check of the NASM AES-GCM families (C08)"""
+def gcm_guard(workdir, lmax, smax, seed, repo=REPO, prog="gcm_guard"):
+    """bounded guard-page check of the NASM AES-GCM families (C08); prog="aes_guard": AES-XTS and AES-CBC"""
     import glob
     from . import misc_jobs
     os.makedirs(workdir, exist_ok=True)
-    inv = misc_jobs.writable_inventory(os.path.join(workdir, "objs"), repo)
-    if inv["build_failures"]:
-        raise RuntimeError("library objects did not build: %s" % inv["build_failures"][0][0])
+    if not glob.glob(os.path.join(workdir, "objs", "*.o")):
+        inv = misc_jobs.writable_inventory(os.path.join(workdir, "objs"), repo)
+        if inv["build_failures"]:
+            raise RuntimeError("library objects did not build: %s" % inv["build_failures"][0][0])
     objs = sorted(glob.glob(os.path.join(workdir, "objs", "*.o")))
-    exe = os.path.join(workdir, "gcm_guard")
-    r = subprocess.run(["gcc", "-O1", "-w", "-I" + os.path.join(repo, "include"), os.path.join(VERIF, "native", "gcm_guard.c")] + objs + ["-o", exe],
+    exe = os.path.join(workdir, prog)
+    r = subprocess.run(["gcc", "-O1", "-w", "-I" + os.path.join(repo, "include"), os.path.join(VERIF, "native", prog + ".c")] + objs + ["-o", exe],
                        capture_output=True, text=True)
     if r.returncode:
         raise RuntimeError("link failed: " + r.stderr[-800:])
@@ -177,4 +178,4 @@ def gcm_guard(workdir, lmax, smax, seed, repo=REPO):
         if tok.startswith("families="):
             fams = int(tok[9:])
     return {"ok": r.returncode == 0, "text": r.stdout + ("\n[crashed: exit %d]" % r.returncode if r.returncode not in (0, 1) else ""),
-            "calls": cases, "cases": cases, "families": fams, "wall_s": time.time() - t0, "cmd": "gcm_guard %d %d %d" % (lmax, smax, seed)}
+            "calls": cases, "cases": cases, "families": fams, "wall_s": time.time() - t0, "cmd": "%s %d %d %d" % (prog, lmax, smax, seed)}
